@@ -23,6 +23,7 @@ class Contract(object):
         self.loops = dict(kw.pop("loops", {}))
         self.locals = dict(kw.pop("locals", {}))
         self.ghosts = collections.OrderedDict(kw.pop("ghosts", {}))   # name -> (Ty, init expr)
+        self.ghost_final = collections.OrderedDict(kw.pop("ghost_final", {}))  # name -> (Ty, expr at exit): ghost results
         self.ghost_on = list(kw.pop("ghost_on", []))                  # [(pattern, stmt, 'after'|'before')]
         self.yields = kw.pop("yields", None)          # generator: element type
         self.external = kw.pop("external", False)     # assumed, body not verified
@@ -36,7 +37,8 @@ class Contract(object):
         self.assume = list(kw.pop("assume", []))      # extra assumptions (listed in evidence)
         self.self_compose = kw.pop("self_compose", None)
         self.cover = kw.pop("cover", True)
-        self.kf = kw.pop("kf", {})                    # clause -> known-finding condition
+        self.kf = kw.pop("kf", {})
+        self.empties = kw.pop("empties", {})             # 'set'/'list'/'dict' -> type of untyped empty displays                    # clause -> known-finding condition
         if kw:
             raise TypeError("unknown contract keys: %s" % sorted(kw))
 
